@@ -72,6 +72,7 @@ type Cfg struct {
 	StoreTZ          int      // seconds east of UTC of the timestamps the storer hands out (0: as stored)
 	NilSessionState  bool     // the session store answers a nil state for requests without a stored session
 	Localizer        string   // "" none | "empty": a catalogue without any entry (answers "" for every key, as the interface prescribes for missing keys) | "partial": entries for about half of the keys
+	decoy            bool     // this World is the second instance created next to another one
 	PersistArbitrary bool     // the user type stores every key PutArbitrary hands it (only sensible with an explicit RegWhitelist)
 }
 
@@ -414,6 +415,23 @@ func New(cfg Cfg, salt string) (w *World, err error) {
 	w.Lock = &lock.Lock{Authboss: ab}
 	w.Conf = &confirm.Confirm{Authboss: ab}
 	w.handler = w.buildStack()
+	if !cfg.decoy && len(cfg.Modules)%3 == 0 {
+		// a second, differently configured instance in the same process, initialised AFTER the one under
+		// observation (a multi-tenant deployment; instances share nothing): its existence changes nothing
+		d := cfg
+		d.decoy = true
+		d.Modules = nil
+		for _, m := range cfg.Modules {
+			if m != "confirm" && m != "lock" {
+				d.Modules = append(d.Modules, m)
+			}
+		}
+		d.Mount, d.JSON, d.TwoFAEmail, d.RecoverLogin = "/other", !cfg.JSON, false, !cfg.RecoverLogin
+		if _, err := New(d, "decoy"); err != nil {
+			return nil, err
+		}
+		verifclock.Set(w.now)
+	}
 	return w, nil
 }
 
@@ -630,6 +648,16 @@ func (r renderer) Load(names ...string) error { return nil }
 func (r renderer) Render(ctx context.Context, page string, data authboss.HTMLData) ([]byte, string, error) {
 	if err := r.w.backend(r.kind, page, false); err != nil {
 		return nil, "", err
+	}
+	if r.kind == "mailrender" && strings.HasSuffix(page, "txt") {
+		// the text part of a mail is rendered after its HTML part: a template that fails only there
+		// (fault plan "mailrender-txt") fails with the HTML body — link included — already in hand
+		if e, ok := r.w.FaultOps["mailrender-txt"]; ok && r.w.cur != nil {
+			delete(r.w.FaultOps, "mailrender-txt")
+			r.w.cur.FaultsFired++
+			r.w.cur.Calls = append(r.w.cur.Calls, Call{Op: "mailrender-txt", Arg: page, Result: "fault:" + e.Error()})
+			return nil, "", e
+		}
 	}
 	return r.inner.Render(ctx, page, data)
 }
@@ -991,3 +1019,7 @@ func (c catalogue) Localizef(ctx context.Context, key authboss.LocalizationKey, 
 	}
 	return "«" + fmt.Sprintf(key.Default, args...) + "»"
 }
+
+// ResetClock points the process-wide virtual clock back at w's own instant (another World created in
+// the meantime has set it to its own).
+func ResetClock(w *World) { verifclock.Set(w.now) }
